@@ -61,6 +61,7 @@ def note(**kw) -> None:
 # stubs
 STUBS_USED = []
 _TREE = [None]
+_PENDING = [False]
 _REAL_COMPOSER_GSN = yaml.composer.Composer.get_single_node
 
 
@@ -153,6 +154,13 @@ def install_stubs(close_matches: bool = True, composer: bool = True) -> None:
     if composer:
         # S3: the text front end returns *some* node tree (or None)
         yaml.composer.Composer.get_single_node = lambda self: _TREE[0]
+        # the multi-document hooks (yaml.load_all): one pending document
+        yaml.composer.Composer.check_node = lambda self: _PENDING[0]
+
+        def _get_node(self):
+            _PENDING[0] = False
+            return _TREE[0]
+        yaml.composer.Composer.get_node = _get_node
         STUBS_USED.append('S3 composer')
 
 
@@ -426,6 +434,19 @@ def load_tree(load_fn, tree):
     text = tree_to_text(tree, load_fn.loader)
     note(yaml_text=text)
     return load_fn(text)
+
+
+def load_tree_all(load_fn, tree):
+    """The same document read through PyYAML's multi-document interface
+    with the load function's Loader class (yaml.load_all -> Loader.get_node,
+    the second hook yatiml installs); returns the first document."""
+    if SYMBOLIC:
+        _TREE[0] = tree
+        _PENDING[0] = True
+        return list(yaml.load_all('', Loader=load_fn.loader))[0]
+    text = tree_to_text(tree, load_fn.loader)
+    note(yaml_text=text, read_with='yaml.load_all(text, Loader=load.loader)')
+    return list(yaml.load_all(text, Loader=load_fn.loader))[0]
 
 
 def plain(v, dict_kind=True):
